@@ -79,7 +79,7 @@ Proof.
   unfold view_C07, good, trait_attr_of. cbn [x_input x_attr x_variant source_fns]. rewrite Hp, Ha. cbn [ta_impl_trait].
   destruct (ta_impl_trait a0) as [it|] eqn:Hit; [|cbn; discriminate].
   destruct (c06_gen_holds true _ _ _ _ _ _ H Ha) as (_ & B1 & B2); [rewrite Hit; reflexivity|].
-  destruct (delegation_defs_target _ _ _ _ _ _ it Hit Hd) as (d & rest & recv & -> & N1 & _ & N2 & N3 & N4 & N5 & Hsel).
+  destruct (delegation_defs_target (eff_trait_attr v a0) _ _ _ _ _ it Hit Hd) as (d & rest & recv & -> & N1 & _ & N2 & N3 & N4 & N5 & Hsel).
   cbn [v_app v_det v_holds]. intros _. split; [exact B1|]. rewrite B2. cbn [andb].
   rewrite N1, String.eqb_refl. unfold first_param_toks. rewrite N2, N3, N4, N5. cbn [andb].
   destruct Hsel as [(del & Hdel & -> & ->)|(r & Hdel & -> & ->)]; cbn [ta_delegate eff_trait_attr] in *; rewrite Hdel.
